@@ -37,6 +37,11 @@ CatErrs(T, ks, i) == IF i > Len(ks) THEN <<>> ELSE TreeErrs(T, ks[i]) \o CatErrs
 RECURSIVE Visible(_, _)
 Visible(T, n) == {n} \cup (IF T.name[n] = "metadata" THEN {} ELSE UNION {Visible(T, T.kids[n][i]) : i \in 1..Len(T.kids[n])})
 
+(* a metadata element is judged on itself and on HOW MANY children it has, never on what they are: with more than one
+   child it is invalid; a plain one (no attributes, no text of its own) with at most one child is valid *)
+MetadataWrong(e, n) == \/ Len(e.kids[n]) > 1 /\ (e.nodeErrs[n] = <<>> \/ IsOk(e.nodeFF[n]))
+                       \/ Len(e.kids[n]) <= 1 /\ e.plain[n] /\ (e.nodeErrs[n] # <<>> \/ ~IsOk(e.nodeFF[n]))
+
 Clauses(e) ==
   LET nodeCl == UNION {OutcomeClauses(e.nodeFF[n], e.nodeRaised[n], [j \in 1..Len(e.nodeErrs[n]) |-> <<e.nodeErrs[n][j], n, e.nodeShape[n]>>]) : n \in 1..Len(e.name)}
       treeCl == OutcomeClauses(e.ff, e.craised, e.coll)
@@ -45,6 +50,7 @@ Clauses(e) ==
   IN {"node:" \o c : c \in nodeCl} \cup {"tree:" \o c : c \in treeCl}
      \cup (IF clean /\ [j \in 1..Len(e.coll) |-> <<e.coll[j][1], e.coll[j][2]>>] # TreeErrs(e, e.root) THEN {"tree-errors-not-concatenation-of-node-errors"} ELSE {})
      \cup (IF clean /\ (IsOk(e.ff) # (\A n \in vis : IsOk(e.nodeFF[n]))) THEN {"tree-failfast-not-conjunction-of-nodes"} ELSE {})
+     \cup (IF clean /\ e.per_node /\ \E n \in vis : e.name[n] = "metadata" /\ MetadataWrong(e, n) THEN {"metadata-outcome-depends-on-more-than-its-child-count"} ELSE {})
 
 Judge(k) == LET c == Clauses(Events[k]) IN
             IF c = {} THEN TRUE ELSE PrintT(ToJson([k |-> "REJECT", event |-> k, clauses |-> c]))
